@@ -59,6 +59,20 @@ class NestedTransdimensional(BaseProposal):
         self._index = self.model_proposal.parameters[0]
         self.set_jump_interval(1)
 
+    @BaseProposal.bit_generator.setter
+    def bit_generator(self, bit_generator):
+        """Sets the bit generator of this proposal, of all of its constituent
+        proposals and of their birth distributions."""
+        BaseProposal.bit_generator.fset(self, bit_generator)
+        if self._model_proposal is not None:
+            self._model_proposal.bit_generator = self.bit_generator
+        for prop in getattr(self, '_proposals', []):
+            prop.bit_generator = self.bit_generator
+            try:
+                prop.birth_distribution.bit_generator = self.bit_generator
+            except AttributeError:
+                pass
+
     @property
     def proposals(self):
         return self._proposals
